@@ -24,6 +24,14 @@ pub fn run(id: &str, tier: Tier, replay: Option<&str>) -> i32 {
         "C26-deep" => nopanic::deep_worker(&std::env::args().skip(2).collect::<Vec<_>>()),
         "C05" | "C06" | "C07" | "C08" => analysis::run(id, tier, replay),
         "dbg" => dbg::run(&std::env::args().skip(2).collect::<Vec<_>>()),
+        "count" => {
+            let a: Vec<usize> = std::env::args().skip(2).map(|x| x.parse().unwrap()).collect();
+            let t0 = std::time::Instant::now();
+            let b = crate::gram::enum_bnf_pre(&crate::gram::BnfSpace { max_nt: a[0], max_t: a[1], max_len: a[2], max_alts: a[3], max_size: a[4] }, false, crate::gram::Pre::WellFormedLl);
+            let wf = b.len();
+            crate::outln!("{:?}: {} canonical, {} well-formed LL, {:?}", a, b.len(), wf, t0.elapsed());
+            0
+        }
         "spaces" => {
             ll::print_spaces();
             0
